@@ -12,12 +12,14 @@ package main
 
 import (
 	"encoding/hex"
+	"encoding/json"
 	"fmt"
 	"net/http"
 	"os"
 	"path/filepath"
 	"sort"
 	"strconv"
+	"strings"
 
 	"github.com/skycoin/skycoin/src/api"
 	"github.com/skycoin/skycoin/src/cipher"
@@ -218,6 +220,21 @@ func newWorld() *world {
 		api.NewGateway(dm, v, ws, kv))
 	w.symbols()
 	cur = w
+	// unsigned wallet transactions for the signing endpoint, obtained through the real API
+	for _, i := range []string{"0", "2"} {
+		body := `{"wallet_id":"` + w.sym["wid"+i] + `","unsigned":true,"hours_selection":{"type":"auto","mode":"share","share_factor":"0.5"},"to":[{"address":"` + w.sym["a1"] + `","coins":"1"}]}`
+		req, _ := http.NewRequest("POST", "/api/v1/wallet/transaction", strings.NewReader(body))
+		req.Header.Set("Content-Type", "application/json")
+		rw := &recWriter{hdr: http.Header{}}
+		w.mux.ServeHTTP(rw, req)
+		var resp struct {
+			Enc string `json:"encoded_transaction"`
+		}
+		if rw.status != 200 || json.Unmarshal(rw.body.Bytes(), &resp) != nil || resp.Enc == "" {
+			panic("harness: could not create the unsigned wallet transaction: " + rw.body.String())
+		}
+		w.sym["raw.w"+i+"unsigned"] = resp.Enc
+	}
 	return w
 }
 
@@ -355,7 +372,18 @@ func (w *world) symbols() {
 	for i, id := range w.sortedIDs(func(id cipher.SHA256) bool { return w.spent[id] }) {
 		w.sym["uxs"+strconv.Itoa(i)] = id.Hex()
 	}
+	for name, a := range map[string]string{"w0": "w0a0", "w1": "w1a0", "w2": "w2a0", "k3": "a3", "k4": "a4", "k1": "a1"} {
+		owner := cipher.MustDecodeBase58Address(w.sym[a])
+		for i, id := range w.sortedIDs(func(id cipher.SHA256) bool { return !w.spent[id] && !w.inPool[id] && w.created[id] == owner }) {
+			w.sym[name+"ux"+strconv.Itoa(i)] = id.Hex()
+		}
+	}
 	w.sym["headseq"] = strconv.Itoa(len(w.blockTime) - 1)
+	for i := 0; i < 3; i++ {
+		w.sym["unk"+strconv.Itoa(i)] = cipher.SumSHA256([]byte("c28 unknown object " + strconv.Itoa(i))).Hex()
+	}
+	up, _ := cipher.MustGenerateDeterministicKeyPair([]byte("c28-unused-key"))
+	w.sym["aunused"] = cipher.AddressFromPubKey(up).String()
 	for _, k := range txnKinds {
 		txn, _ := w.txnOfKind(k)
 		w.sym["raw."+k] = hex.EncodeToString(mustSerialize(txn))
